@@ -62,7 +62,7 @@ def run_np_case(rec, k):
         name, args, kw = FORMS.get(f, (f, (), {}))
         if f.startswith("power_"):
             import osyris
-            name, args = "power", ({"power_int2": 2, "power_nd2": np.array(2), "power_nd3": np.array(3), "power_q2": 2 * osyris.units("dimensionless"), "power_a3": A(3.0), "power_s2": A(0.02, unit="m/cm")}[f],)
+            name, args = "power", ({"power_int2": 2, "power_nd2": np.array(2), "power_nd3": np.array(3), "power_nd1e": np.array([2]), "power_q2": 2 * osyris.units("dimensionless"), "power_a3": A(3.0), "power_s2": A(0.02, unit="m/cm")}[f],)
         fn = getattr(np, name)
         sa = snapshot(a)
         try:
@@ -164,7 +164,10 @@ def _compare(res, want, o, dts, tol, f):
     want = np.asarray(want)
     scale = 1.0
     if o["unit"] != ["fractional"]:
-        got = sparse_of_pint(res.unit)
+        try:
+            got = sparse_of_pint(res.unit)
+        except Exception as e:
+            return "mismatch", f"unit: the unit of the result of np.{f} cannot be read ({type(e).__name__}: {str(e)[:80]})", {}
         spec = [list(x) for x in o["unit"]]
         if got != spec:
             from .units_map import cgs_of_sparse, dim_of_sparse
